@@ -56,11 +56,14 @@ func TestDebugReplay(t *testing.T) {
 	DebugHook = func(pw *PgWorld, run *SessionRun, script []Stmt) {
 		fmt.Printf("stuck=%v clientErr=%q proxyErrs=%v\n", run.Stuck, run.ClientErr, run.ProxyErrs)
 		fmt.Printf("db statements: %q\n", pw.DB.Statements)
+		for _, st := range pw.Stacks {
+			fmt.Println("STACK", st)
+		}
 		for i, r := range run.Results {
 			fmt.Printf("res %d %q: err=%q ready=%v rows=%.60q msgs=%v fields=%v\n", i, script[i].SQL, r.Err, r.Ready, r.Rows, r.Messages, r.Fields)
 		}
 	}
-	res := map[string]kernel.Property{"C04": C04{}, "C05": C05{}, "C09": C09{}, "C11": C11{}, "C19": C19{}}[rp.Plan.Prop].Run(t, rp.Plan, true)
+	res := map[string]kernel.Property{"C04": C04{}, "C05": C05{}, "C09": C09{}, "C11": C11{}, "C19": C19{}, "C12": C12{}, "C15": C15{}}[rp.Plan.Prop].Run(t, rp.Plan, true)
 	for _, v := range res.Violations {
 		fmt.Println("VIOL", v.Class(), v.Detail)
 	}
@@ -102,7 +105,7 @@ func TestDebugRepeat(t *testing.T) {
 	if err != nil {
 		t.Fatal(err)
 	}
-	prop := map[string]kernel.Property{"C04": C04{}, "C05": C05{}, "C09": C09{}, "C11": C11{}, "C19": C19{}}[rp.Plan.Prop]
+	prop := map[string]kernel.Property{"C04": C04{}, "C05": C05{}, "C09": C09{}, "C11": C11{}, "C19": C19{}, "C12": C12{}, "C15": C15{}}[rp.Plan.Prop]
 	kernel.Warmup(t)
 	x := uint64(0)
 	for i := 0; i < 2; i++ {
